@@ -1,4 +1,5 @@
 #include <cstring>
+#include <limits>
 
 #include <occa/types/bits.hpp>
 #include <occa/types/primitive.hpp>
@@ -673,8 +674,33 @@ namespace occa {
     return primitive();
   }
 
+  // Integer division (or remainder) by zero and INT_MIN / -1 trap on most targets (SIGFPE):
+  // report them as errors instead
+  static void checkIntegerDivision(const primitive &a, const primitive &b,
+                                   const int retType, const char *opName) {
+    if ((retType == primitiveType::float_) ||
+        (retType == primitiveType::double_)) {
+      return;
+    }
+    if (b.to<uint64_t>() == 0) {
+      OCCA_FORCE_ERROR("Division by zero in operator " << opName);
+    }
+    const bool overflows = (
+      ((retType == primitiveType::int32_)
+       && (a.to<int32_t>() == std::numeric_limits<int32_t>::min())
+       && (b.to<int32_t>() == -1))
+      || ((retType == primitiveType::int64_)
+          && (a.to<int64_t>() == std::numeric_limits<int64_t>::min())
+          && (b.to<int64_t>() == -1))
+    );
+    if (overflows) {
+      OCCA_FORCE_ERROR("Integer overflow in operator " << opName);
+    }
+  }
+
   primitive primitive::div(const primitive &a, const primitive &b) {
     const int retType = (a.type > b.type) ? a.type : b.type;
+    checkIntegerDivision(a, b, retType, "/");
     switch(retType) {
       case primitiveType::bool_   : return primitive(a.to<bool>()     / b.to<bool>());
       case primitiveType::int8_   : return primitive(a.to<int8_t>()   / b.to<int8_t>());
@@ -694,6 +720,7 @@ namespace occa {
 
   primitive primitive::mod(const primitive &a, const primitive &b) {
     const int retType = (a.type > b.type) ? a.type : b.type;
+    checkIntegerDivision(a, b, retType, "%");
     switch(retType) {
       case primitiveType::bool_   : return primitive(a.to<bool>()     % b.to<bool>());
       case primitiveType::int8_   : return primitive(a.to<int8_t>()   % b.to<int8_t>());
@@ -877,6 +904,7 @@ namespace occa {
 
   primitive& primitive::divEq(primitive &a, const primitive &b) {
     const int retType = (a.type > b.type) ? a.type : b.type;
+    checkIntegerDivision(a, b, retType, "/=");
     switch(retType) {
       case primitiveType::bool_   : a = (a.to<bool>()     / b.to<bool>());     break;
       case primitiveType::int8_   : a = (a.to<int8_t>()   / b.to<int8_t>());   break;
@@ -896,6 +924,7 @@ namespace occa {
 
   primitive& primitive::modEq(primitive &a, const primitive &b) {
     const int retType = (a.type > b.type) ? a.type : b.type;
+    checkIntegerDivision(a, b, retType, "%=");
     switch(retType) {
       case primitiveType::bool_   : a = (a.to<bool>()     % b.to<bool>());     break;
       case primitiveType::int8_   : a = (a.to<int8_t>()   % b.to<int8_t>());   break;
